@@ -513,20 +513,54 @@ Proof.
   rewrite Forall_forall in Hw. apply Hw. exact Hfm.
 Qed.
 
-(* type_exact + none_omitted + values_bound for one classmethod call, unguarded: the variables put
-   on the object are the ideal ones *)
-Lemma call_vars_exact args ams :
-  Forall wf_arg ams -> call_vars ams args = ideal_vars ams args.
+(* the generated serialize expression computes the specified element-wise serialisation on every
+   value that has no None at a non-null item position *)
+Lemma ser_t_spec : forall t top v, nn_ok top t v = true -> ser_t top t v = ser_spec t v.
 Proof.
-  induction 1 as [|am r Ha _ IH]; simpl; [reflexivity|]. rewrite IH. clear IH.
-  unfold wf_arg in Ha.
-  destruct (match dlookup (am_gql am) args with
-            | Some v => Some v
-            | None => if am_required am then None else Some JNull end) as [v|]; [|reflexivity].
-  destruct (ideal_vars r args) as [vs|]; [|reflexivity].
-  rewrite Ha. destruct (is_null v) eqn:En.
-  - destruct (am_ser am); simpl; [reflexivity | rewrite En; reflexivity].
-  - destruct (am_ser am); simpl; [reflexivity | rewrite En; reflexivity].
+  induction t as [n|it IH|t' IH]; intros top v H.
+  - reflexivity.
+  - simpl in *. unfold guardn. destruct (is_null v); [reflexivity|].
+    destruct v; simpl in *; try reflexivity. f_equal. apply map_ext_in. intros x Hx.
+    apply IH. rewrite forallb_forall in H. apply H. exact Hx.
+  - simpl in H. apply andb_true_iff in H as [H1 H2].
+    assert (He : match t' with TList it => lst (ser_t false it) v | _ => ser v end
+                 = match t' with TList it => lst (ser_spec it) v | _ => ser v end).
+    { destruct t' as [n|it|t'']; try reflexivity.
+      destruct (is_null v) eqn:En.
+      - destruct v; try discriminate. reflexivity.
+      - specialize (IH false v H2). simpl in IH. unfold guardn in IH. rewrite En in IH. exact IH. }
+    simpl. rewrite He. destruct top; [reflexivity|]. simpl in H1.
+    unfold guardn. destruct (is_null v); [discriminate | reflexivity].
+Qed.
+
+Lemma ser_spec_null t v : is_null (ser_spec t v) = is_null v.
+Proof.
+  destruct t as [n|it|t']; simpl; unfold guardn; destruct v; try reflexivity;
+    destruct t'; reflexivity.
+Qed.
+
+(* type_exact + none_omitted + values_bound for one classmethod call: the variables put on the object
+   are the ideal ones — exact type, caller's value serialised element-wise, None omitted *)
+Lemma call_vars_exact args ams :
+  Forall wf_arg ams -> args_conform ams args = true -> call_vars ams args = ideal_vars ams args.
+Proof.
+  induction 1 as [|am r Ha _ IH]; simpl; intro Hc; [reflexivity|].
+  apply andb_true_iff in Hc as [Hc1 Hc2]. rewrite (IH Hc2). clear IH Hc2.
+  unfold wf_arg in Ha. unfold arg_value in Hc1.
+  assert (G : forall v, (negb (am_ser am) || nn_ok true (am_ty am) v = true) ->
+            forall vs,
+            (if is_null (if am_ser am then ser_t true (am_ty am) v else v) then vs
+             else {| v_name := am_gql am; v_type := am_type am;
+                     v_value := if am_ser am then ser_t true (am_ty am) v else v |} :: vs)
+            = (if is_null v then vs
+               else {| v_name := am_gql am; v_type := am_exact am;
+                       v_value := if am_ser am then ser_spec (am_ty am) v else v |} :: vs)).
+  { intros v Hv vs. rewrite Ha. destruct (am_ser am); [|reflexivity]. simpl in Hv.
+    rewrite (ser_t_spec _ _ _ Hv), ser_spec_null. reflexivity. }
+  destruct (dlookup (am_gql am) args) as [v|].
+  - destruct (ideal_vars r args) as [vs|]; [|reflexivity]. rewrite (G v Hc1). reflexivity.
+  - destruct (am_required am); [reflexivity|].
+    destruct (ideal_vars r args) as [vs|]; [|reflexivity]. rewrite (G JNull Hc1). reflexivity.
 Qed.
 
 (* ------------------------------------------------------------------------------------------ *)
@@ -692,14 +726,16 @@ Lemma nth_store0 ct k p : nth_error (attrs ct) k = Some p ->
 Proof. intro H. unfold store0. rewrite nth_error_map, H. reflexivity. Qed.
 
 Lemma evals_sim ct es :
-  Forall (fun e => forall st' n ni, g_shared e = true -> eval ct e (store0 ct) = Some (st', n) ->
+  Forall (fun e => forall st' n ni, g_shared e = true -> g_conform ct e = true ->
+                   eval ct e (store0 ct) = Some (st', n) ->
                    ideal ct e = Some ni -> sim (store0 ct) n ni) es ->
-  forall st' ns nis, forallb g_shared es = true -> evals ct es (store0 ct) = Some (st', ns) ->
+  forall st' ns nis, forallb g_shared es = true -> forallb (g_conform ct) es = true ->
+  evals ct es (store0 ct) = Some (st', ns) ->
   ideals ct es = Some nis -> Forall2 (sim (store0 ct)) ns nis.
 Proof.
-  induction 1 as [|x r Hx Hr IH]; intros st' ns nis Hg He Hi; simpl in *.
+  induction 1 as [|x r Hx Hr IH]; intros st' ns nis Hg Hcf He Hi; simpl in *.
   - injection He as _ <-. injection Hi as <-. constructor.
-  - apply andb_true_iff in Hg as [G1 G2].
+  - apply andb_true_iff in Hg as [G1 G2]. apply andb_true_iff in Hcf as [C1 C2].
     destruct (eval ct x (store0 ct)) as [[st1 n]|] eqn:E; [|discriminate].
     assert (st1 = store0 ct) by (eapply eval_safe_store; eassumption). subst st1.
     destruct (evals ct r (store0 ct)) as [[st2 ns2]|] eqn:E2; [|discriminate].
@@ -715,11 +751,17 @@ Lemma sim_N_inv st d subs frs ni : sim st (N d subs frs) ni ->
                      Forall2 (fragrel st) frs frs'.
 Proof. intro H. inversion H; subst. eexists. eexists. repeat split; eauto. Qed.
 
+Lemma g_conform_fix ct es :
+  (fix go (l : list bexpr) : bool := match l with [] => true | x :: r => g_conform ct x && go r end) es
+  = forallb (g_conform ct) es.
+Proof. induction es; simpl; [reflexivity | rewrite IHes; reflexivity]. Qed.
+
 Lemma eval_sim ct : wf_ct ct -> forall e st' n ni,
-  g_shared e = true -> eval ct e (store0 ct) = Some (st', n) -> ideal ct e = Some ni ->
+  g_shared e = true -> g_conform ct e = true ->
+  eval ct e (store0 ct) = Some (st', n) -> ideal ct e = Some ni ->
   sim (store0 ct) n ni.
 Proof.
-  intros Hw. induction e using bexpr_ind'; intros st' n ni Hg He Hi.
+  intros Hw. induction e using bexpr_ind'; intros st' n ni Hg Hcf He Hi.
   - simpl in He, Hi. unfold resolve_attr in *.
     destruct (attr_index ct c f) as [k|]; [|discriminate].
     destruct (nth_error (attrs ct) k) as [p|] eqn:En; [|discriminate].
@@ -729,11 +771,13 @@ Proof.
   - simpl in He, Hi. destruct (find_fm ct c f) as [fm|] eqn:Ef; [|discriminate].
     destruct (fm_method fm && args_known (fm_args fm) a); [|discriminate].
     destruct (find_fm_wf _ _ _ _ Hw Ef) as [Hemit Hargs].
-    rewrite (call_vars_exact a _ Hargs) in He.
+    simpl in Hcf. rewrite Ef in Hcf.
+    rewrite (call_vars_exact a _ Hargs Hcf) in He.
     destruct (ideal_vars (fm_args fm) a) as [vs|]; [|discriminate].
     injection He as _ <-. injection Hi as <-. rewrite Hemit.
     apply sim_n; [reflexivity | constructor | constructor].
   - simpl in Hg. rewrite g_shared_fix in Hg. apply andb_true_iff in Hg as [G1 G2].
+    simpl in Hcf. rewrite g_conform_fix in Hcf. apply andb_true_iff in Hcf as [C1 C2].
     simpl in He, Hi. rewrite ideals_fix in Hi.
     destruct (eval ct e (store0 ct)) as [[st1 [d subs frs|k]]|] eqn:E; try discriminate.
     destruct (can_fields (d_kind d)) eqn:Ec; [|discriminate]. rewrite evals_fix in He.
@@ -741,21 +785,22 @@ Proof.
     destruct (evals ct es (store0 ct)) as [[st2 ns]|] eqn:E2; [|discriminate].
     destruct (ideal ct e) as [ni0|] eqn:I1; [|discriminate].
     destruct (ideals ct es) as [nis|] eqn:I2; [|destruct ni0; discriminate].
-    specialize (IHe _ _ _ G1 eq_refl eq_refl).
+    specialize (IHe _ _ _ G1 C1 eq_refl eq_refl).
     apply sim_N_inv in IHe as [subs' [frs' [-> [Hf [Hs Hfr]]]]].
     rewrite Ec in Hi. injection He as _ <-. injection Hi as <-.
     apply sim_n; [exact Hf | | exact Hfr].
     apply Forall2_app; [exact Hs|]. eapply evals_sim; eauto.
-  - simpl in Hg. apply andb_true_iff in Hg as [G1 G2]. simpl in He, Hi.
+  - simpl in Hg. apply andb_true_iff in Hg as [G1 G2]. simpl in He, Hi. simpl in Hcf.
     destruct (eval ct e (store0 ct)) as [[st1 n1]|] eqn:E; [|discriminate].
     destruct (recv_fresh_inline _ _ _ _ _ G1 E) as [d [subs [frs ->]]].
     destruct (ideal ct e) as [ni0|] eqn:I1; [|discriminate].
-    specialize (IHe _ _ _ G2 eq_refl eq_refl).
+    specialize (IHe _ _ _ G2 Hcf eq_refl eq_refl).
     apply sim_N_inv in IHe as [subs' [frs' [-> [Hf [Hs Hfr]]]]].
     injection He as _ <-. injection Hi as <-.
     apply sim_n; [destruct d; exact Hf | exact Hs | exact Hfr].
   - simpl in Hg. rewrite g_shared_fix in Hg.
     apply andb_true_iff in Hg as [G12 G3]. apply andb_true_iff in G12 as [G1 G2].
+    simpl in Hcf. rewrite g_conform_fix in Hcf. apply andb_true_iff in Hcf as [C1 C2].
     simpl in He, Hi. rewrite ideals_fix in Hi.
     destruct (eval ct e (store0 ct)) as [[st1 n1]|] eqn:E; [|discriminate].
     destruct (recv_fresh_inline _ _ _ _ _ G1 E) as [d [subs [frs ->]]].
@@ -764,7 +809,7 @@ Proof.
     destruct (evals ct es (store0 ct)) as [[st2 ns]|] eqn:E2; [|discriminate].
     destruct (ideal ct e) as [ni0|] eqn:I1; [|discriminate].
     destruct (ideals ct es) as [nis|] eqn:I2; [|destruct ni0; discriminate].
-    specialize (IHe _ _ _ G2 eq_refl eq_refl).
+    specialize (IHe _ _ _ G2 C1 eq_refl eq_refl).
     apply sim_N_inv in IHe as [subs' [frs' [-> [Hf [Hs Hfr]]]]].
     rewrite Ec in Hi. injection He as _ <-. injection Hi as <-.
     apply sim_n; [exact Hf | exact Hs |].
@@ -1019,7 +1064,8 @@ Proof.
 Qed.
 
 Lemma evals_sim_all ct (Hw : wf_ct ct) es st' ns nis :
-  forallb g_shared es = true -> evals ct es (store0 ct) = Some (st', ns) ->
+  forallb g_shared es = true -> forallb (g_conform ct) es = true ->
+  evals ct es (store0 ct) = Some (st', ns) ->
   ideals ct es = Some nis -> Forall2 (sim (store0 ct)) ns nis.
 Proof.
   apply evals_sim. apply Forall_forall. intros e _. intros. eapply eval_sim; eassumption.
@@ -1029,7 +1075,7 @@ Qed.
    object, run right after import, the request resolves to the ideal request; the declared variables
    are exactly the variables used, each once, and each is bound *)
 Theorem doc_valid_store0 ct fuel f2 es st' rq idl :
-  wf_ct ct -> forallb g_shared es = true ->
+  wf_ct ct -> forallb g_shared es = true -> forallb (g_conform ct) es = true ->
   run_op ct fuel (store0 ct) es = Some (st', rq) -> ideal_sels ct f2 es = Some idl ->
   resolves (look_req rq) (r_sels rq) = Some idl /\
   NoDup (keys (r_vardefs rq)) /\
@@ -1037,11 +1083,11 @@ Theorem doc_valid_store0 ct fuel f2 es st' rq idl :
   keys (r_values rq) = keys (r_vardefs rq) /\
   st' = store0 ct.
 Proof.
-  intros Hw Hg Hr Hi. unfold run_op in Hr.
+  intros Hw Hg Hcf Hr Hi. unfold run_op in Hr.
   destruct (evals ct es (store0 ct)) as [[st1 ns]|] eqn:Ee; [|discriminate].
   assert (st1 = store0 ct) by (eapply evals_safe_store; eassumption). subst st1.
   unfold ideal_sels in Hi. destruct (ideals ct es) as [nis|] eqn:Ei; [|discriminate].
-  pose proof (evals_sim_all ct Hw _ _ _ _ Hg Ee Ei) as Hsim.
+  pose proof (evals_sim_all ct Hw _ _ _ _ Hg Hcf Ee Ei) as Hsim.
   unfold build_request in Hr.
   destruct (build_sels fuel 0 (store0 ct) ns) as [[st2 sns]|] eqn:Eb; [|discriminate].
   pose proof (unique_var_names_operation _ _ _ _ _ Eb) as Hnd.
@@ -1075,6 +1121,7 @@ Qed.
 Theorem doc_valid ct fuel f2 hist st es st' rq idl :
   wf_ct ct ->
   Forall (fun es => forallb g_shared es = true) hist -> forallb g_shared es = true ->
+  forallb (g_conform ct) es = true ->
   run_hist ct fuel (store0 ct) hist = Some st ->
   run_op ct fuel st es = Some (st', rq) -> ideal_sels ct f2 es = Some idl ->
   resolves (look_req rq) (r_sels rq) = Some idl /\
@@ -1082,8 +1129,8 @@ Theorem doc_valid ct fuel f2 hist st es st' rq idl :
   keys (r_vardefs rq) = flat_map sel_vars (r_sels rq) /\
   keys (r_values rq) = keys (r_vardefs rq).
 Proof.
-  intros Hw Hh Hg Hr Ho Hi. rewrite (safe_history_keeps_store _ _ _ _ Hh Hr) in Ho.
-  destruct (doc_valid_store0 _ _ _ _ _ _ _ Hw Hg Ho Hi) as [H1 [H2 [H3 [H4 _]]]]. auto.
+  intros Hw Hh Hg Hcf Hr Ho Hi. rewrite (safe_history_keeps_store _ _ _ _ Hh Hr) in Ho.
+  destruct (doc_valid_store0 _ _ _ _ _ _ _ Hw Hg Hcf Ho Hi) as [H1 [H2 [H3 [H4 _]]]]. auto.
 Qed.
 
 (* ------------------------------------------------------------------------------------------ *)
@@ -1113,7 +1160,8 @@ Definition schema : schema :=
        t_fields := [F "animals" (nn (TList (nn (nm "Animal")))) [Ar "ids" (nn (TList (nn (nm "ID"))))];
                     F "person" (nm "Person") [Ar "id" (nn (nm "ID"))];
                     F "p" (nm "Person") [Ar "a" (nm "Int"); Ar "a_0" (nm "Int")];
-                    F "me" (nm "Person") []] |} ].
+                    F "me" (nm "Person") [];
+                    F "events" (nm "Person") [Ar "at" (TList (nn (nm "Instant"))); Ar "opt" (TList (nm "Instant"))]] |} ].
 Definition conf := {| c_snake := true; c_ser := ["Instant"] |}.
 Definition ct := gen_classes conf schema (Some "Query") None.
 
@@ -1136,6 +1184,9 @@ Definition es_collide :=
    Fields (Call "Query" "p" [("a_0", JInt 3%Z)]) [Call "PersonFields" "x" [("a", JInt 7%Z)]]].
 Definition ns_collide : list node :=
   match evals ct es_collide (store0 ct) with Some (_, ns) => ns | None => [] end.
+(* list-typed serialised arguments (fix 3032a3a): item by item, None items of a nullable item type kept *)
+Definition e_serlist := Fields (Call "Query" "events"
+  [("at", JArr [JStr "a"; JStr "b"]); ("opt", JArr [JNull; JStr "c"])]) [pid].
 (* a non-trivial two-field operation without shared mutation *)
 Definition es_good :=
   [Fields (Alias person1 "q") [pid; Attr "PersonFields" "full_name";
